@@ -472,7 +472,18 @@ def r05_4(run):
     run.ob('R05.4', base.file, base.node, 'codes 1..8 all have an error class', all(i in codes for i in range(1, 9)), slot='cover-1-8',
            message='missing error classes for codes %s' % [i for i in range(1, 9) if i not in codes])
     se = m.assigns.get('_socks_errors')
-    run.ob('R05.4', base.file, se or base.node, 'lookup table keyed by class code', se is not None and 'cls.code' in src(se) and '__subclasses__' in src(se),
+    okt = se is not None and 'cls.code' in src(se) and '__subclasses__' in src(se)
+    if not okt and se is not None:
+        # keyed by .code over an explicit list of the error classes: it has to name every subclass that has a code
+        comps = [c_ for c_ in ast.walk(se) if isinstance(c_, ast.comprehension)]
+        if comps and '.code' in src(se):
+            it = comps[0].iter
+            if isinstance(it, ast.Name) and it.id in m.assigns:
+                it = m.assigns[it.id]
+            if isinstance(it, (ast.Tuple, ast.List)):
+                listed = set(dotted(e) for e in it.elts)
+                okt = set(codes.values()) <= listed
+    run.ob('R05.4', base.file, se or base.node, 'lookup table keyed by class code', okt,
            slot='table', message='_socks_errors is %s' % src(se))
     ce = run.idx.unit(MOD + '._create_socks_error')
     g = cfg_of(ce)
